@@ -121,14 +121,34 @@ pub fn td_line(rng: &mut Rng, maxvars: usize) -> String {
         csv(&order),
         if sem { "sem" } else { "std" }
     );
+    // one line in three: the SAME builder first compiles an unsatisfiable CNF whose refutation
+    // needs a decision (a compilation must not leave anything behind that a later one can see)
+    let pre = n >= 2 && raw.len() % 3 == 0;
+    // (the order must enumerate exactly the CNF's variables: mention every variable once more)
+    let mut pre_raw = vec![
+        vec![(0, true), (1, true)],
+        vec![(0, true), (1, false)],
+        vec![(0, false), (1, true)],
+        vec![(0, false), (1, false)],
+    ];
+    for v in 2..n {
+        pre_raw.push(vec![(0, true), (v, v % 2 == 0)]);
+    }
+    let pre_cnf = to_cnf(&pre_raw);
     let r = guarded(|| {
         rsdd::verif_hooks::set_table_capacity(Some(8));
         let vo = VarOrder::new(&order.iter().map(|&x| VarLabel::new_usize(x)).collect::<Vec<_>>());
         if sem {
             let b = SemanticDecisionNNFBuilder::<{ primes::U64_LARGEST }>::new(vo);
+            if pre {
+                let _ = b.compile_cnf_topdown(&pre_cnf);
+            }
             report(&b, &cnf, n)
         } else {
             let b = StandardDecisionNNFBuilder::new(vo);
+            if pre {
+                let _ = b.compile_cnf_topdown(&pre_cnf);
+            }
             report(&b, &cnf, n)
         }
     });
